@@ -108,7 +108,7 @@ def loader_bounds(ctx, quick=None):
     cov["loader_model_counterexamples"] = [dict(check=n, entries=c["entries"], x=c["x"], oob_reads=c["reads"]) for n, c in cex]
 
     # ---- 2. hostile files of the real machine, with the model's verdicts ------------------------------
-    r32 = tlc(ctx, "NvmLoad", "NvmLoadDir32", workers=w, constants=consts)
+    r32 = tlc(ctx, "NvmLoad", "NvmLoadDir32", workers=w, constants=dict(consts, **full))
     if r32.violated:
         raise InfraError("NvmLoadDir32 (repaired checks, W = 32) violates %s" % r32.violated)
     cases, seen = [], set()
